@@ -364,10 +364,17 @@ pub fn run(ctx: &Ctx) {
             }
         }
     }
+    // leakcheck=1 (run under C11): the same crash grid, but what is judged is the receiving
+    // process's descriptor table and shared mappings once every handle of the run is gone - an
+    // interrupted message that is discarded must not leave its attachments behind
+    let leakcheck = ctx.opt_u64("leakcheck", 0) == 1;
     let mut covered_k = 0i64;
     for (si, (packets, att, survivor, observer)) in shapes.iter().cloned().enumerate() {
         if si as u64 % ctx.nbatch != ctx.batch {
             continue;
+        }
+        if leakcheck && (!att || observer == 3) {
+            continue; // the router observer leaks its router on purpose
         }
         let shape_id = si as u64;
         if let Some(c) = ctx.only_case {
@@ -386,7 +393,7 @@ pub fn run(ctx: &Ctx) {
             continue;
         }
         let n = cnt.child_calls;
-        for (k_sig, d) in judge(&cnt, survivor, observer) {
+        for (k_sig, d) in judge(&cnt, survivor, observer).into_iter().filter(|_| !leakcheck) {
             rep.violation(&format!("C12:no-crash:{}", k_sig), json!({"ctx": base, "problem": d}), ctx.replay(shape_id * 1000 + 999));
         }
         for k in 0..=n {
@@ -396,8 +403,37 @@ pub fn run(ctx: &Ctx) {
                 }
             }
             let concurrent = (k + si as i32) % 2 == 0;
+            let before = if leakcheck { Some((fd_table(), shared_maps().len())) } else { None };
             let o = run_one(shape_id, len, att, survivor, observer, k, concurrent);
             covered_k += 1;
+            if let Some((bf, bm)) = before {
+                if o.undecided.is_none() && o.stuck.is_none() && o.panic.is_none() {
+                    let after = fd_table();
+                    let extra: Vec<(i32, String)> = after.iter().filter(|(fd, _)| !bf.contains_key(fd) && **fd < 1000).map(|(a, b)| (*a, b.clone())).collect();
+                    let maps = shared_maps().len();
+                    let delivered = o.obs.iter().any(|x| matches!(x, Obs::Msg { seq: 2, .. }));
+                    let what = if delivered { "delivered" } else { "interrupted" };
+                    let mut kinds = std::collections::BTreeSet::new();
+                    for (_, t) in &extra {
+                        kinds.insert(if t.starts_with("socket:") { "socket" } else if t.contains("ipc-channel-shared-memory") || t.contains("memfd:") { "shared-memory" } else { "other" });
+                    }
+                    for kind in kinds {
+                        rep.violation(&format!("C11:descriptor-leaked:{}:after-{}-message-of-crashed-sender", kind, what),
+                            json!({"ctx": base, "k": k, "of": n, "extra": extra.iter().take(6).collect::<Vec<_>>(), "observed": o.obs.iter().map(|x| format!("{:?}", x)).collect::<Vec<_>>()}),
+                            ctx.replay(shape_id * 1000 + k as u64));
+                    }
+                    if maps != bm {
+                        rep.violation(&format!("C11:shared-mapping-leaked:after-{}-message-of-crashed-sender", what),
+                            json!({"ctx": base, "k": k, "of": n, "before": bm, "after": maps}), ctx.replay(shape_id * 1000 + k as u64));
+                    }
+                    rep.stat("crash_runs_checked_for_leaks", 1);
+                    if !delivered && k > 0 && k < n {
+                        rep.stat("interrupted_messages_with_attachments_checked_for_leaks", 1);
+                    }
+                }
+                rep.case(&("leak", packets, survivor, observer, k), true);
+                continue;
+            }
             if let Some(u) = &o.undecided {
                 rep.inconclusive(&format!("c12 shape {} k {}: {}", shape_id, k, u));
                 continue;
